@@ -8,9 +8,11 @@ The kernel leaves some outcomes open (after a reset the lines received before ma
 first `send` after the peer's FIN succeeds or not), so the model gives for every state and operation the *set* of
 outcomes the implementation may show (`allowed`); `step` follows an observed outcome if it is in that set.
 
-  readline   `AsynConn.readline()`: a complete line from `_rxbuffer`/`recv`, `None` after `timeout` without data,
+  readline   `AsynConn.readline()`: a complete line from `_rxbuffer`/`recv`, `None` after `timeout` without data
+             (also when the beginning of a line is waiting in `_rxbuffer`: it stays there, `allowed` does not look at `part`),
              `ConnectionClosed` when `recv` returns `b''` or raises `ConnectionResetError`
-             (`AsynTcp.recv`); after `disconnect()` `self.connection` is `None` → `AttributeError`
+             (`AsynTcp.recv`); after `disconnect()` `self.connection` is `None` → `AttributeError` (unless a complete
+             line is still buffered)
   send       `self.connection.sendall(data)`: `BrokenPipeError`/`ConnectionResetError` on a dead or locally
              shut-down socket; after `disconnect()` → `AttributeError`
   shutdown   `if self.connection: try: shutdown(SHUT_RDWR) except OSError: pass` — never raises
@@ -38,7 +40,9 @@ inductive Out where
   deriving DecidableEq, Repr
 
 inductive Ev where
-  | peerSend                -- the peer sends one more complete line
+  | peerSend                -- the peer sends one more complete line (or the rest of the line it has begun, with the terminator)
+  | peerPart                -- bytes of the next line arrive without its terminator (the line comes in several segments);
+                            -- whatever pause follows, they belong to that line
   | peerFin                 -- the peer closes orderly
   | peerRst                 -- the peer resets the connection
   | call (o : Op) (r : Out)
@@ -48,6 +52,7 @@ structure St where
   peer : PeerSt := .up
   sent : Nat := 0           -- lines the peer has sent
   read : Nat := 0           -- lines handed to the client so far
+  part : Bool := false      -- the beginning of line number `sent` has arrived, its terminator has not (`_rxbuffer` keeps it)
   shut : Bool := false      -- `shutdown()` was called
   gone : Bool := false      -- `disconnect()` was called (`self.connection is None`)
   finSends : Nat := 0       -- sends after the peer's FIN (the first one still succeeds)
@@ -59,7 +64,9 @@ def ended (s : St) : Bool := s.shut || s.peer != .up
 
 def allowed (s : St) : Op → List Out
   | .readline =>
-    if s.gone then [.otherErr "AttributeError"]
+    if s.gone then
+      -- `self.connection` is `None`; a complete line that is still in `_rxbuffer` is handed out without touching it
+      (if s.read < s.sent && !s.eof then [.otherErr "AttributeError", .line s.read] else [.otherErr "AttributeError"])
     else if s.eof then [.closed]
     else if s.read < s.sent then
       (if s.peer = .rst then [.line s.read, .closed] else [.line s.read])
@@ -84,7 +91,8 @@ def apply (s : St) : Op → Out → St
 
 /-- the peer acts only while its side is open -/
 def step (s : St) : Ev → Option St
-  | .peerSend => if s.peer = .up then some { s with sent := s.sent + 1 } else none
+  | .peerSend => if s.peer = .up then some { s with sent := s.sent + 1, part := false } else none
+  | .peerPart => if s.peer = .up then some { s with part := true } else none
   | .peerFin => if s.peer = .up then some { s with peer := .fin } else none
   | .peerRst => if s.peer = .up then some { s with peer := .rst } else none
   | .call o r => if (allowed s o).contains r then some (apply s o r) else none
